@@ -131,3 +131,109 @@ Section Gen.
   Lemma winv0 : winv wstate0.
   Proof. split; [reflexivity|constructor]. Qed.
 End Gen.
+
+(* ---------------- C04 for generator functions: transparency of GeneratorWrapper ---------------- *)
+Section GenTransparent.
+  Variable check : ann -> value -> tvenv -> outcome unit * tvenv.
+  Variable yt st_ rt : ann.
+  Variable body : gbody.
+
+  Definition g_accepts (a : ann) (v : value) : Prop := forall tv, fst (check a v tv) = Ok tt.
+
+  (* everything the generator yields / returns conforms, and so does the None of the StopIteration an exhausted
+     generator raises (guard of the finding C04-exhausted-generator) *)
+  Hypothesis yields_ok : forall h y, body h = GYield y -> g_accepts yt y.
+  Hypothesis returns_ok : forall h r, body h = GReturn r -> g_accepts rt r.
+  Hypothesis none_ok : g_accepts rt VNone.
+
+  Definition res_of (i : ires) : wres :=
+    match i with IYield y => WValue y | IStop r => WStop r | IRaise e => WRaise e | INone => WNone end.
+  (* the undecorated generator under the same operation *)
+  Definition twin_step (g : gstate) (o : gop) : ires * gstate :=
+    match o with
+    | OpNext => inner_send body g VNone
+    | OpSend v => inner_send body g v
+    | OpThrow e => inner_throw body g e
+    | OpClose => inner_close body g
+    end.
+  Fixpoint twin_run (g : gstate) (ops : list gop) : list ires * gstate :=
+    match ops with
+    | [] => ([], g)
+    | o :: ops' => let (r, g1) := twin_step g o in let (rs, g2) := twin_run g1 ops' in (r :: rs, g2)
+    end.
+  (* every value sent conforms to the send type (the None of next() included) *)
+  Definition op_ok (o : gop) : Prop :=
+    match o with OpNext => g_accepts st_ VNone | OpSend v => g_accepts st_ v | _ => True end.
+
+  Lemma react_event : forall g r i g', react body g r = (i, g') ->
+    match i with
+    | IYield y => exists h, body h = GYield y
+    | IStop v => exists h, body h = GReturn v
+    | _ => True
+    end.
+  Proof.
+    intros g r i g' H. unfold react in H. destruct (body (g_hist g ++ [r])) eqn:E; inversion H; subst; eauto.
+  Qed.
+
+  Lemma inner_send_event : forall g v i g', inner_send body g v = (i, g') ->
+    match i with
+    | IYield y => g_accepts yt y
+    | IStop r => g_accepts rt r
+    | _ => True
+    end.
+  Proof.
+    intros g v i g' H. unfold inner_send in H.
+    destruct (g_done g); [inversion H; subst; exact none_ok|].
+    destruct (negb (g_started g) && negb (is_none v)); [inversion H; subst; exact I|].
+    pose proof (react_event _ _ _ _ H) as He. destruct i; try exact I; destruct He as [h Hh]; eauto.
+  Qed.
+
+  Lemma w_send_transparent : forall w v, g_accepts st_ v ->
+    let (i, g') := inner_send body (w_inner w) v in
+    exists w', w_send check yt st_ rt body w v = (res_of i, w') /\ w_inner w' = g'.
+  Proof.
+    intros w v Hv. destruct (inner_send body (w_inner w) v) as [i g'] eqn:Ei.
+    pose proof (inner_send_event _ _ _ _ Ei) as Hev. unfold w_send. rewrite Ei.
+    assert (Hpre : exists tv1, (if w_init w then match check st_ v (w_tv w) with (Ok _, tv') => Ok tv' | (Raise e, _) => Raise e end else Ok (w_tv w)) = Ok tv1).
+    { destruct (w_init w); [|eauto]. specialize (Hv (w_tv w)). destruct (check st_ v (w_tv w)) as [[u|e] tv']; simpl in Hv; [eauto|discriminate]. }
+    destruct Hpre as [tv1 ->].
+    destruct i as [y|r|e|]; simpl.
+    - specialize (Hev tv1). destruct (check yt y tv1) as [[u|e] tv2]; simpl in Hev; [eauto|discriminate].
+    - specialize (Hev tv1). destruct (check rt r tv1) as [[u|e] tv2]; simpl in Hev; [eauto|discriminate].
+    - eauto.
+    - eauto.
+  Qed.
+
+  Lemma inner_close_shape : forall g i g', inner_close body g = (i, g') -> match i with INone | IRaise _ => True | _ => False end.
+  Proof.
+    intros g i g' H. unfold inner_close in H. destruct (g_done g || negb (g_started g)); [inversion H; subst; exact I|].
+    destruct (react body g (RThrow GeneratorExitC)) as [[y|v|e|] g1]; [| |destruct (derives e GeneratorExitC)|]; inversion H; subst; exact I.
+  Qed.
+
+  Lemma w_step_transparent : forall w o, op_ok o ->
+    let (i, g') := twin_step (w_inner w) o in
+    exists w', w_step check yt st_ rt body w o = (res_of i, w') /\ w_inner w' = g'.
+  Proof.
+    intros w o Ho. destruct o as [|v|e|]; simpl in *.
+    - exact (w_send_transparent w VNone Ho).
+    - exact (w_send_transparent w v Ho).
+    - unfold w_throw. destruct (inner_throw body (w_inner w) e) as [[y|r|e'|] g']; simpl; eauto.
+    - unfold w_close. destruct (inner_close body (w_inner w)) as [i g'] eqn:Ec.
+      pose proof (inner_close_shape _ _ _ Ec) as Hs. destruct i; try contradiction; simpl; eauto.
+  Qed.
+
+  (* C04, generators: under these hypotheses the caller of the wrapper observes exactly what the caller of the
+     undecorated generator observes - for every sequence of next / send / throw / close *)
+  Theorem gen_transparent : forall ops w,
+    Forall op_ok ops ->
+    fst (w_run check yt st_ rt body w ops) = map res_of (fst (twin_run (w_inner w) ops))
+    /\ w_inner (snd (w_run check yt st_ rt body w ops)) = snd (twin_run (w_inner w) ops).
+  Proof.
+    induction ops as [|o ops IH]; intros w Hok; [split; reflexivity|].
+    inversion Hok as [|? ? Ho Hrest]; subst. simpl.
+    pose proof (w_step_transparent w o Ho) as Hs. destruct (twin_step (w_inner w) o) as [i g'].
+    destruct Hs as [w1 [E1 Eg]]. rewrite E1. specialize (IH w1 Hrest). rewrite Eg in IH.
+    destruct (w_run check yt st_ rt body w1 ops) as [rs w2]. destruct (twin_run g' ops) as [is g2]. simpl in *.
+    destruct IH as [IH1 IH2]. split; [now rewrite IH1|assumption].
+  Qed.
+End GenTransparent.
